@@ -31,6 +31,10 @@ def _bpm(L):
     return 60000 / L
 
 
+def _beats_comparable(changes):
+    return len({M for _m, _b, M in changes}) == 1 or all(F(b1) == 0 or M1 == M0 for (_m0, _b0, M0), (_m1, b1, M1) in zip(changes, changes[1:]))
+
+
 def _abs_beats(changes):
     """absolute beat position of every change given (measure, beat, metronome) snaps: measures between two changes have
     the earlier change's metronome."""
@@ -95,10 +99,20 @@ def ob_roundtrip_grid(changes, queries, ctx):
         j = max(i for i, (m, b, _M) in enumerate(changes) if (m, F(b)) <= (q[0], F(q[1])))
         m, b, M = changes[j]
         expect.append(pos[j] + (q[0] - m) * M + (F(q[1]) - F(b)))
-    same_metro = len({M for _m, _b, M in changes}) == 1
-    if same_metro:
+    # with mixed metronomes the cumulative count is compared when every change of metronome lies on a measure line
+    # (a measure cut short by a change has no agreed beat numbering; such sets keep the round-trip facets only)
+    if _beats_comparable(changes):
+        # a metronome change strictly between two time-adjacent queries (no query on the change itself): known finding
+        # C10-beats-unqueried-metronome-change; such pairs carry their own facet name
+        key = lambda q: (q[0], F(q[1]))
+        sq = sorted({key(q) for q in queries})
+        bad_gaps = [(a, b) for a, b in zip(sq, sq[1:])
+                    if any(a < (m1, F(b1)) < b and M1 != M0 for (_m0, _b0, M0), (m1, b1, M1) in zip(changes, changes[1:]))]
         for i, j in itertools.combinations(range(len(queries)), 2):
-            ctx.check("beats[%d]-beats[%d].is-beat-distance" % (j, i), ctx.eq(beats[j] - beats[i], expect[j] - expect[i]),
+            lo, hi = sorted((key(queries[i]), key(queries[j])))
+            sparse = any(lo <= a and b <= hi for a, b in bad_gaps)
+            ctx.check("beats[%d]-beats[%d].is-beat-distance%s" % (j, i, "{across-unqueried-metronome-change}" if sparse else ""),
+                      ctx.eq(beats[j] - beats[i], expect[j] - expect[i]),
                       note="%r - %r vs %r" % (ctx.value(beats[j]), ctx.value(beats[i]), expect[j] - expect[i]))
 
 
@@ -352,11 +366,11 @@ def obligations(tier, seed):
         for oi, qs in enumerate(orders):
             obs.append(Obligation("C10/offsets/set%d/order%d" % (ci, oi), partial(ob_offsets, ch, qs),
                                   bound="%d tempo changes at %s (measure, beat, metronome), symbolic beat lengths and initial offset; queries %s" % (len(ch), ch, qs)))
-        same = len({M for _m, _b, M in ch}) == 1
+        same = _beats_comparable(ch)
         grid_qs = [q for q in base] + [(ch[-1][0] + 1, F(1, 2)), (0, F(1, 4))]
         for oi, qs in enumerate([grid_qs, grid_qs[::-1], [grid_qs[1], grid_qs[1], grid_qs[0]]]):
             obs.append(Obligation("C10/roundtrip-grid/set%d/order%d" % (ci, oi), partial(ob_roundtrip_grid, ch, qs),
-                                  bound="ms->snaps->ms and cumulative beats for on-grid times; changes %s; queries %s; symbolic beat lengths/offset%s" % (ch, qs, "" if same else " (beats facet skipped: mixed metronomes)")))
+                                  bound="ms->snaps->ms and cumulative beats for on-grid times; changes %s; queries %s; symbolic beat lengths/offset%s" % (ch, qs, "" if same else " (beats facet skipped: metronome changes inside a measure)")))
     # tempo lists given out of order / through BpmList with any row labels
     specs = [((4, 4), (8,)), ((4, 3, 5), (4, 6)), ((2, 4, 4), (4, 8))]
     for metros, gaps in specs:
